@@ -163,7 +163,9 @@ func runC03(w *World, r *Report) {
 	r.Rule("size", "sizeM ≡ sizeL (and extentM ≡ sizeL up to round8) as symbolic terms, per OpenFlow kind (the C06 rule)", 100)
 	r.Rule("embed", "child encodings are copied whole (the C06 rule)", 60)
 	r.Rule("nooverlap", "no two write records provably overlap (the C06 rule)", 100)
-	sizeRules(w, r, func(k *Kind) bool { return strings.HasPrefix(k.Name, "openflow13.") || strings.HasPrefix(k.Name, "common.") })
+	sizeRules(w, r, func(k *Kind) bool {
+		return strings.HasPrefix(k.Name, "openflow13.") || strings.HasPrefix(k.Name, "common.")
+	})
 	r.Rule("convform", "the value converter of the generic builder hands over exactly the argument's own value, whatever its (named) type (the C17 rule)", 3)
 	r.Rule("word", "offset in bits 6..15, width-1 in bits 0..5 of the offset/width word (the C16 rule)", 2)
 	r.Rule("range", "range accessors and constructors agree (the C16 rule)", 5)
